@@ -607,6 +607,11 @@ def main():
                "SNC = n x RWG cannot be tangentially continuous")
     run.assume("the documented meaning of the options used as specification: P1 dofs = vertices of the segment (interior ones only unless include_boundary_dofs); RWG/SNC dofs = edges "
                "with two neighbours in the segment (all edges of segment elements with include_boundary_dofs); truncate_at_segment_edge=False extends the support to the neighbouring elements")
+    run.assumed_contract("block preconditions of contracts/dofmap_blocks.py",
+                         "each block is verified per iteration under its `requires` (rows of an unprocessed element still zero, dof numbers of marked vertices / edges "
+                         "non-negative, an element kept in the support has a dof).  For RWG / SNC the last one is the postcondition of `_rwg_selection_block` together with "
+                         "the frame clause (dof numbers never return to -1); the others follow from the allocation with zeros and from every element being visited once. "
+                         "This composition over the loops is an argument on paper, backed by the bounded DOF-map contracts on real runs")
     return run.finish()
 
 
